@@ -144,7 +144,9 @@ MismatchOf(s, o, ti, tj, tu, tr) ==
   \cup (IF s.npvd # o.npvd THEN {"NumPvd"} ELSE {})
   \cup (IF ~EltMatches(s, o.elt) THEN {"EltRefs"} ELSE {})
   \cup (IF o.dec.on THEN DecMismatch(s, o.dec) ELSE {})
-  \cup (IF o.err # <<>> THEN {"ProjectionError"} ELSE {})
+  \* (a closed object has nothing to project: the harness logs "no_observation")
+  \cup (IF s.phase = "uninit" THEN (IF o.err = <<"no_observation">> THEN {} ELSE {"ObjectStillOpen"})
+        ELSE IF o.err # <<>> THEN {"ProjectionError"} ELSE {})
 Mismatch(s, o) ==
     CHOOSE m \in {MismatchOf(s, o, ObsTree(o.iso), ObsTree(o.jol), ObsTree(o.udf), ObsTree(o.rrv))} : TRUE
 
